@@ -40,7 +40,7 @@ macro "unfold_rules" : tactic => `(tactic|
     pure, Except.pure, StateT.pure, get, getThe, MonadStateOf.get, StateT.get, throw, throwThe, MonadExceptOf.throw, StateT.lift, Ty.isNamed, *])
 
 /-- different basic kinds (int vs int64, string vs int …) are never converted -/
-theorem C03_basic_kind_mismatch (k k' : Kind) (hk : (k == k') = false)
+theorem C03_basic_kind_mismatch (k k' : Kind) (hk : (k.canon == k'.canon) = false)
     (hu : cx.cfg.common.useUnderlying = false) (hs : cx.cfg.common.skipCopySameType = false) :
     noLookup c (fuel+1) cx mode pp (.basic k) (.basic k') path st = .error .typeMismatch := by
   unfold noLookup; unfold_rules
